@@ -89,30 +89,33 @@ type ScenarioProg struct {
 }
 
 type H1Cfg struct {
-	Driver        string            `json:"driver"` // api | cli
-	Mode          string            `json:"mode"`
-	Flags         map[string]string `json:"flags,omitempty"`
-	Concurrency   int               `json:"concurrency"`
-	MaxDurationNs int64             `json:"max_duration"`
-	MaxIterations uint64            `json:"max_iterations,omitempty"`
-	WaitTimeoutNs int64             `json:"wait_timeout"`
-	IgnoreDropped bool              `json:"ignore_dropped,omitempty"`
-	MaxFailures   uint64            `json:"max_failures,omitempty"`
-	MaxFailRate   int               `json:"max_failures_rate,omitempty"`
-	Verbose       bool              `json:"verbose,omitempty"`
-	Interactive   bool              `json:"interactive,omitempty"`
-	Metrics       bool              `json:"metrics,omitempty"`
-	StaticLabels  [][2]string       `json:"static_labels,omitempty"`
-	Runs          int               `json:"runs,omitempty"`          // consecutive runs on one metrics instance
-	SameScenario  bool              `json:"same_scenario,omitempty"` // ... all of the same scenario name
-	MemProfile    bool              `json:"memprofile,omitempty"`    // driver f1: pass --memprofile
-	C03Overload   bool              `json:"c03_overload,omitempty"`
-	Prog          ScenarioProg      `json:"prog"`
-	CancelAtNs    int64             `json:"cancel_at,omitempty"`   // after Do was called; <0 = cancel before Do
-	CancelAtStep  uint64            `json:"cancel_step,omitempty"` // scheduler step (asynchronous signal)
-	StartOffsetNs int64             `json:"start_offset,omitempty"`
-	FileYAML      string            `json:"file_yaml,omitempty"`
-	SlowOutputNs  int64             `json:"slow_output,omitempty"` // every progress line takes this long to write
+	Driver         string            `json:"driver"` // api | cli
+	Mode           string            `json:"mode"`
+	Flags          map[string]string `json:"flags,omitempty"`
+	Concurrency    int               `json:"concurrency"`
+	MaxDurationNs  int64             `json:"max_duration"`
+	MaxIterations  uint64            `json:"max_iterations,omitempty"`
+	WaitTimeoutNs  int64             `json:"wait_timeout"`
+	IgnoreDropped  bool              `json:"ignore_dropped,omitempty"`
+	MaxFailures    uint64            `json:"max_failures,omitempty"`
+	MaxFailRate    int               `json:"max_failures_rate,omitempty"`
+	Verbose        bool              `json:"verbose,omitempty"`
+	Interactive    bool              `json:"interactive,omitempty"`
+	Metrics        bool              `json:"metrics,omitempty"`
+	StaticLabels   [][2]string       `json:"static_labels,omitempty"`
+	Runs           int               `json:"runs,omitempty"`          // consecutive runs on one metrics instance
+	SameScenario   bool              `json:"same_scenario,omitempty"` // ... all of the same scenario name
+	MemProfile     bool              `json:"memprofile,omitempty"`    // driver f1: pass --memprofile
+	C03Overload    bool              `json:"c03_overload,omitempty"`
+	Prog           ScenarioProg      `json:"prog"`
+	CancelAtNs     int64             `json:"cancel_at,omitempty"`   // after Do was called; <0 = cancel before Do
+	CancelAtStep   uint64            `json:"cancel_step,omitempty"` // scheduler step (asynchronous signal)
+	CancelAtSite   string            `json:"cancel_site,omitempty"` // … or CancelSitePlus steps after the nth arrival of any task at such a yield site
+	CancelSiteNth  int               `json:"cancel_site_nth,omitempty"`
+	CancelSitePlus uint64            `json:"cancel_site_plus,omitempty"`
+	StartOffsetNs  int64             `json:"start_offset,omitempty"`
+	FileYAML       string            `json:"file_yaml,omitempty"`
+	SlowOutputNs   int64             `json:"slow_output,omitempty"` // every progress line takes this long to write
 	// expectations computed by the generator (not by reading f1): tick interval / per-tick rate when constant & undistributed
 	TickNs   int64 `json:"tick,omitempty"`
 	TickRate int   `json:"tick_rate,omitempty"`
@@ -443,8 +446,16 @@ func (h h1) Gen(prop, tier string, r *simrt.Rng) (any, simrt.Config) {
 		cancelP = 10
 	}
 	if r.Intn(cancelP) == 0 {
-		if r.Intn(3) == 0 {
+		if k := r.Intn(4); k == 0 {
 			c.CancelAtStep = uint64(1 + r.Intn(4000))
+		} else if k == 1 {
+			// the signal arrives while f1 is at a particular point of its own protocol: pools starting, a stage handing
+			// over, the completion wait, progress being collected, teardown (names that match nothing never fire)
+			c.CancelAtSite = simrt.Pick(r, "ContinuousPool.Start", "ContinuousPool.startWorker", "TriggerPool.Start", "TriggerPool.stop", "PoolManager.WaitForCompletion",
+				"PoolManager.NextIteration", "ActiveScenario.Setup", "ActiveScenario.Run", "run.Run.run", "run.Run.Do", "Result.", "raterun.", "stagesWorker", "api.NewIterationWorker",
+				"users.", "testing.T.teardown", "progress.Stats")
+			c.CancelSiteNth = simrt.Pick(r, 1, 1, 1, 2, 3, 5, 20)
+			c.CancelSitePlus = uint64(simrt.Pick(r, 0, 1, 2, 3, 5, 8, 13, 30))
 		} else {
 			switch r.Intn(8) {
 			case 0:
@@ -482,7 +493,7 @@ func (h h1) Gen(prop, tier string, r *simrt.Rng) (any, simrt.Config) {
 			c.MaxDurationNs = int64(simrt.Pick(r, 2000, 3000))*int64(time.Millisecond) + odd(r)
 			c.Prog.RendezvousNs = c.MaxDurationNs / 2
 			c.MaxIterations = 0
-			c.CancelAtNs, c.CancelAtStep = 0, 0
+			c.CancelAtNs, c.CancelAtStep, c.CancelAtSite = 0, 0, ""
 			c.Prog.SetupBehav = bPass
 			for i := range c.Prog.Iter {
 				c.Prog.Iter[i].Behav = bPass
@@ -501,7 +512,7 @@ func (h h1) Gen(prop, tier string, r *simrt.Rng) (any, simrt.Config) {
 			body := iv*ms*int64(1+r.Intn(3)) + 1009
 			c.Prog.Iter = []IterPlan{{SleepNs: body}, {SleepNs: body + 2003}}
 			c.Prog.SetupBehav, c.Prog.SetupSleepNs, c.Prog.SetupCleanups = bPass, 0, nil
-			c.CancelAtNs, c.CancelAtStep = 0, 0
+			c.CancelAtNs, c.CancelAtStep, c.CancelAtSite = 0, 0, ""
 			c.MaxDurationNs = int64(c.MaxIterations)*(body+3*ms+iv*ms)*2 + 50*ms + odd(r)
 			c.WaitTimeoutNs = int64(time.Second) + odd(r)
 		}
@@ -541,7 +552,7 @@ func (h h1) Gen(prop, tier string, r *simrt.Rng) (any, simrt.Config) {
 			c.MaxIterations = uint64(total)
 			c.MaxDurationNs = int64(8*time.Second) + odd(r)
 			c.WaitTimeoutNs = int64(2*time.Second) + odd(r)
-			c.CancelAtNs, c.CancelAtStep = 0, 0
+			c.CancelAtNs, c.CancelAtStep, c.CancelAtSite = 0, 0, ""
 			c.Prog.SetupBehav, c.Prog.SetupCleanups = bPass, nil
 			c.Prog.Iter = nil
 			for i := 0; i < total; i++ {
@@ -580,7 +591,7 @@ func (h h1) Gen(prop, tier string, r *simrt.Rng) (any, simrt.Config) {
 		c.Interactive = false
 	}
 	if c.Driver == "f1" {
-		c.CancelAtNs, c.CancelAtStep, c.Runs = 0, 0, 1
+		c.CancelAtNs, c.CancelAtStep, c.CancelAtSite, c.Runs = 0, 0, "", 1
 		c.Verbose, c.Interactive = true, false
 		if prop == "C16" {
 			c.Metrics, c.StaticLabels = true, nil // the global instance was initialised with iteration metrics on, no static labels
